@@ -1,10 +1,10 @@
-SPECIFICATION Spec
+SPECIFICATION GSpec
 CONSTANTS
-  Gor = {"g1", "g2", "g3"}
+  Gor = {"g1", "g2"}
   Eps = {"E", "F"}
-  Svcs = {"xe", "e", "ef", "f", "t"}
+  Svcs = {"xe", "e", "ef", "f", "te", "t", "x"}
   Adv <- AdvAll
-  MaxReq = 1
+  MaxReq = 2
   MaxLoss = 0
   AuthMayRefuse = FALSE
   Dev_RUnlockUnderWriteLock = FALSE
@@ -13,5 +13,7 @@ CONSTANTS
   Dev_DeadClientStaysInPool = FALSE
   Dev_PoolKeyedByAdvertised = FALSE
   Dev_CloserBeforeInsert = FALSE
-INVARIANTS TypeOK ProcessAlive NoBadUnlock MutexOK RequestOutcome ReturnedIsOpen AtMostOneConnPerEndpoint ExtraConnectionsClosed PoolHoldsLiveClients AllGetTheSharedClient NoDeadlock
+VIEW View
+CONSTRAINT Replayable
+INVARIANTS ProcessAlive NoBadUnlock MutexOK RequestOutcome ReturnedIsOpen AtMostOneConnPerEndpoint ExtraConnectionsClosed PoolHoldsLiveClients AllGetTheSharedClient
 CHECK_DEADLOCK FALSE
